@@ -20,6 +20,9 @@ pub enum Op {
     Read(u8),
     /// nested sub-buffer performing one inner op, then released
     Nested(Inner),
+    /// a reader that claims to have read this many bytes more than the buffer it was given
+    /// (the library must refuse; nothing may be committed by the refused call)
+    LyingRead(u8),
     /// stop with an error (the views are released early)
     Bail,
     /// observers only
@@ -32,6 +35,8 @@ pub enum Inner {
     Read(u8),
     /// nested view dropped without use
     Unused,
+    /// a lying reader (see `Op::LyingRead`) inside the nested view
+    LyingRead(u8),
     /// write then take `initialized()` of the nested view
     WriteTake(u8),
 }
@@ -50,6 +55,8 @@ pub fn ops() -> Vec<Op> {
         Op::Nested(Inner::Read(3)),
         Op::Nested(Inner::Unused),
         Op::Nested(Inner::WriteTake(2)),
+        Op::LyingRead(1),
+        Op::Nested(Inner::LyingRead(1)),
         Op::Bail,
         Op::Query,
     ]
@@ -132,6 +139,29 @@ impl Model {
     }
 }
 
+/// A reader that never touches the buffer it is handed and reports `extra` bytes more than
+/// that buffer can hold. `Read`'s contract forbids that, but memory safety must not depend
+/// on it: the library has to refuse the count.
+struct Liar(usize);
+impl std::io::Read for Liar {
+    fn read(&mut self, buf: &mut [u8]) -> std::io::Result<usize> {
+        Ok(buf.len() + self.0)
+    }
+}
+unsafe impl libtw2_buffer::ReadBufferMarker for Liar {}
+
+fn lying_read<'a, B: Buffer<'a>>(b: B, extra: u8) -> Result<(), String> {
+    let r = std::panic::catch_unwind(std::panic::AssertUnwindSafe(|| {
+        let mut liar = Liar(extra as usize);
+        liar.read_buffer(b).map(|d| d.len()).map_err(|e| e.to_string())
+    }));
+    match r {
+        Err(_) => Ok(()), // refused by panicking
+        Ok(Err(_)) => Ok(()),
+        Ok(Ok(n)) => Err(format!("a reader claiming more bytes than the buffer holds was believed ({} bytes returned)", n)),
+    }
+}
+
 fn check(cond: bool, msg: &str) -> Result<(), String> {
     if cond {
         Ok(())
@@ -185,6 +215,10 @@ fn drive<'d, 's>(mut b: BufferRef<'d, 's>, seq: &[Op], m: &mut Model, take: bool
                             check(got.len() == k, "nested read length differs")?;
                         }
                         Inner::Unused => {}
+                        Inner::LyingRead(k) => {
+                            lying_read(&mut c, k)?;
+                            check(c.remaining() == m.cap - m.written.len(), "a refused read changed the initialized count of the nested view")?;
+                        }
                         Inner::WriteTake(n) => {
                             let bytes = m.fresh(n);
                             let r = c.write(&bytes);
@@ -198,6 +232,10 @@ fn drive<'d, 's>(mut b: BufferRef<'d, 's>, seq: &[Op], m: &mut Model, take: bool
                 });
                 res?;
                 check(b.remaining() == m.cap - m.written.len(), "remaining() after a nested view differs")?;
+            }
+            Op::LyingRead(k) => {
+                lying_read(&mut b, k)?;
+                check(b.remaining() == m.cap - m.written.len(), "a refused read changed the initialized count")?;
             }
             Op::Bail => return Ok(None),
             Op::Query => {
